@@ -94,7 +94,9 @@ def task_cli(task, rec, out):
         planp = os.path.join(root, "plan.json")
         cmd = [PY, "-m", "vf.cli_run", cell["entry"], planp, "--"] + cell_args(cell, prog, src, outp)
         env = dict(os.environ)
-        env["PYTHONPATH"] = "/verif" + (":" + env["PYTHONPATH"] if env.get("PYTHONPATH") else "")
+        from . import REPO
+
+        env["PYTHONPATH"] = "/verif" + (":" + REPO if REPO != "/repo" else "") + (":" + env["PYTHONPATH"] if env.get("PYTHONPATH") else "")
         env["PYTHONHASHSEED"] = "0"  # one fixed configuration, so that all cells of a program are comparable
         p = subprocess.run(cmd, cwd=root, capture_output=True, text=True, timeout=600, env=env)
         out["compiled"].append({"tag": json.dumps(cell, sort_keys=True), "ok": p.returncode == 0, "error": p.stderr[-300:] if p.returncode else "", "secs": None, "entities": None})
